@@ -142,6 +142,9 @@ func Eq(a, b Term) Term {
 	if a.S == b.S {
 		return TTrue
 	}
+	if a.Sort == SInt && b.Sort == SInt && isNumeral(a.S) && isNumeral(b.S) {
+		return TFalse // distinct numerals
+	}
 	return app(SBool, "=", a, b)
 }
 
@@ -254,4 +257,19 @@ type Obligation struct {
 	Detail string // human-readable: source position, path description
 	Path   string // path description (block sequence)
 	Goal   string
+}
+
+func isNumeral(s string) bool {
+	if s == "" {
+		return false
+	}
+	if strings.HasPrefix(s, "(- ") && strings.HasSuffix(s, ")") {
+		s = s[3 : len(s)-1]
+	}
+	for _, c := range s {
+		if c < '0' || c > '9' {
+			return false
+		}
+	}
+	return true
 }
